@@ -18,6 +18,7 @@ CONSTANTS
   BroadcastDedup = TRUE
   FIX_PruneEmpty = TRUE
   AllowLate = FALSE
+  TrackEvicted = FALSE
   AtomicCheck = TRUE
   FlipAccounts = {"B"}
   Self = "A"
